@@ -1,4 +1,6 @@
 import Helios.Model.RateLimiter
+import Helios.Model.Breaker
+import Helios.Model.LB
 /-
 Line-protocol driver: one operation per input line, one output line per operation.
 Core Lean only (compiled as the `driver` executable).  Every sub-model has its own
@@ -9,6 +11,12 @@ namespace Helios.Driver
 structure DState where
   rlCfg : RL.Cfg := { max := 1, refill := 1, cutoff := 3600000000000 }
   rlMap : RL.Map := RL.Map.empty
+  cbCfg : CB.Cfg := { maxRequests := 1, interval := 1, timeout := 1, failureThreshold := 1, successThreshold := 1 }
+  cbSys : CB.Sys := {}
+  cbChanges : List String := []
+  cbLive : Bool := false
+  lb : Option LB.Sys := none
+  lbNames : List String := []
 
 def words (line : String) : List String :=
   (line.splitOn " ").filter (fun w => w != "")
@@ -31,15 +39,185 @@ def rlStep (s : DState) : List String → DState × String
     | none => (s, "bad-op")
   | _ => (s, "bad-op")
 
+def stName : CB.St → String
+  | .closed => "C"
+  | .open_ => "O"
+  | .halfOpen => "H"
+
+def cbObs (y : CB.Sys) : String :=
+  s!"st={stName y.s.st} counts={y.s.failureCount},{y.s.successCount},{y.s.requestCount}"
+
+def cbNote (s : DState) (y' : CB.Sys) : DState :=
+  let ch := if s.cbSys.s.st ≠ y'.s.st then s.cbChanges ++ [stName s.cbSys.s.st ++ ">" ++ stName y'.s.st] else s.cbChanges
+  { s with cbSys := y', cbChanges := ch }
+
+def cbStep (s : DState) : List String → DState × String
+  | ["new", ft, st, mx, iv, to] =>
+    match ft.toNat?, st.toNat?, mx.toNat?, iv.toNat?, to.toNat? with
+    | some ft, some st, some mx, some iv, some to =>
+      let c : CB.Cfg := { maxRequests := mx, interval := iv, timeout := to, failureThreshold := ft, successThreshold := st }
+      ({ s with cbCfg := c.withDefaults, cbSys := {}, cbChanges := [], cbLive := true }, "ok")
+    | _, _, _, _, _ => (s, "bad-op")
+  | ["begin", tid, now] =>
+    match tid.toNat?, now.toNat? with
+    | some tid, some t =>
+      if !s.cbLive || (CB.lookupTid tid s.cbSys.inflight).isSome then (s, "bad-op") else
+      let r := CB.step s.cbCfg s.cbSys (.begin tid t)
+      let tag := match r.2 with
+        | .adm (.admitted _) => "adm"
+        | .adm .rejectedOpen => "open"
+        | .adm .tooMany => "toomany"
+        | _ => "bad"
+      (cbNote s r.1, tag ++ " " ++ cbObs r.1)
+    | _, _ => (s, "bad-op")
+  | ["end", tid, res, now] =>
+    match tid.toNat?, now.toNat? with
+    | some tid, some t =>
+      if !s.cbLive then (s, "bad-op") else
+      match res with
+      | "ok" | "fail" | "panic" =>
+        let r := CB.step s.cbCfg s.cbSys (.end_ tid (res == "ok") t)
+        let tag := match r.2 with
+          | .ended true => "ended"
+          | _ => "unknown"
+        (cbNote s r.1, tag ++ " " ++ cbObs r.1)
+      | _ => (s, "bad-op")
+    | _, _ => (s, "bad-op")
+  | ["changes"] => (s, "changes=" ++ ",".intercalate s.cbChanges)
+  | _ => (s, "bad-op")
+
+def hexVal (c : Char) : Option Nat :=
+  if '0' ≤ c ∧ c ≤ '9' then some (c.toNat - 48)
+  else if 'a' ≤ c ∧ c ≤ 'f' then some (c.toNat - 87)
+  else if 'A' ≤ c ∧ c ≤ 'F' then some (c.toNat - 55)
+  else none
+
+/-- percent-decoding of an op token into bytes ("-" is the empty string) -/
+def unescChars : List Char → Bytes
+  | [] => []
+  | '%' :: a :: b :: rest =>
+    match hexVal a, hexVal b with
+    | some x, some y => UInt8.ofNat (x * 16 + y) :: unescChars rest
+    | _, _ => (String.singleton '%').toUTF8.toList ++ unescChars (a :: b :: rest)
+  | c :: rest => (String.singleton c).toUTF8.toList ++ unescChars rest
+
+def unesc (tok : String) : Bytes := if tok == "-" then [] else unescChars tok.toList
+
+def insertSorted (x : String) : List String → List String
+  | [] => [x]
+  | y :: ys => if x < y then x :: y :: ys else if x == y then y :: ys else y :: insertSorted x ys
+
+def sec : Nat := 1000000000
+
+def boolStr (b : Bool) : String := if b then "true" else "false"
+
+def lbNew (w : List String) : Option LB.Sys :=
+  match w with
+  | [strat, pas, thr, ej, rl, rmax, rref, cb, ft, st, mx, iv, to] =>
+    match thr.toInt?, ej.toNat?, rmax.toInt?, rref.toInt?, ft.toNat?, st.toNat?, mx.toNat?, iv.toNat?, to.toNat? with
+    | some thr, some ej, some rmax, some rref, some ft, some st, some mx, some iv, some to =>
+      let kind := (LB.kindOfName strat).getD .rr
+      let rlc : Option (RL.Cfg × RL.Map) :=
+        if rl == "1" then
+          some ({ max := if rmax ≤ 0 then 100 else rmax.toNat,
+                  refill := if rref ≤ 0 then sec else rref.toNat * sec,
+                  cutoff := 3600 * sec }, RL.Map.empty)
+        else none
+      let cbc : Option (CB.Cfg × CB.State) :=
+        if cb == "1" then
+          let st' := if st = 0 then 1 else st
+          let c : CB.Cfg := { maxRequests := if mx = 0 then st' else mx, interval := iv * sec, timeout := to * sec,
+                              failureThreshold := ft, successThreshold := st' }
+          some (c.withDefaults, {})
+        else none
+      some { kind := kind, hc := { passive := pas == "1", threshold := thr, ejectFor := ej * sec }, rl := rlc, cb := cbc }
+    | _, _, _, _, _, _, _, _, _ => none
+  | _ => none
+
+def lbStep (s : DState) : List String → DState × String
+  | "new" :: rest =>
+    match lbNew rest with
+    | some y => ({ s with lb := some y, lbNames := [] }, "ok")
+    | none => (s, "bad-op")
+  | cmd :: args =>
+    match s.lb with
+    | none => (s, "bad-op")
+    | some y =>
+      match cmd, args with
+      | "add", [name, wt, flag] =>
+        match wt.toInt? with
+        | some w =>
+          let r := LB.add y name w (flag != "bad")
+          if r.2 then ({ s with lb := some r.1, lbNames := insertSorted name s.lbNames }, "ok")
+          else ({ s with lb := some r.1 }, "err")
+        | none => (s, "bad-op")
+      | "remove", [name] => ({ s with lb := some (LB.remove y name) }, "ok")
+      | "strategy", [name] =>
+        let r := LB.setStrategy y name
+        ({ s with lb := some r.1 }, if r.2 then "ok" else "err")
+      | "list", [] =>
+        let parts := y.pool.map (fun o => s!"{o.b.name}:{boolStr o.b.healthy}:{o.b.conns}:{o.b.weight}")
+        (s, "list " ++ ",".intercalate parts)
+      | "metrics", [] =>
+        let parts := s.lbNames.filterMap (fun n => (y.bm n).map (fun m =>
+          s!"{n}:{m.total}:{m.ok}:{m.failed}:{m.conns}:{boolStr m.healthy}"))
+        (s, s!"metrics {y.total} {y.okCnt} {y.failed} {y.limited} " ++ ",".intercalate parts)
+      | "eject", [name, now, dur] =>
+        match now.toNat?, dur.toNat? with
+        | some t, some d =>
+          let r := LB.eject y name t d
+          ({ s with lb := some r.1 }, if r.2 then "ok" else "nobackend")
+        | _, _ => (s, "bad-op")
+      | "probe", [name, now, res] =>
+        match now.toNat? with
+        | some t =>
+          let r := LB.probe y name t (res == "ok")
+          ({ s with lb := some r.1 }, if r.2 then "ok" else "nobackend")
+        | none => (s, "bad-op")
+      | "begin", [tid, now, xff, xri, remote] =>
+        match tid.toNat?, now.toNat? with
+        | some tid, some t =>
+          if y.flights.any (·.tid = tid) then (s, "bad-op") else
+          let r := LB.begin y tid t { xff := unesc xff, xri := unesc xri, remote := unesc remote }
+          let o := match r.2 with
+            | .limited => "resp 429"
+            | .cbOpen => "resp 503"
+            | .cbTooMany => "resp 429"
+            | .noBackend => "resp 503"
+            | .fwd n => "fwd " ++ n
+          ({ s with lb := some r.1 }, o)
+        | _, _ => (s, "bad-op")
+      | "end", [tid, now, res] =>
+        match tid.toNat?, now.toNat? with
+        | some tid, some t =>
+          let out : Option LB.Outcome :=
+            if res == "abort" then some .abort
+            else if res == "unreach" then some (.status 502)
+            else (res.toNat?).map .status
+          match out with
+          | none => (s, "bad-op")
+          | some out =>
+            let r := LB.end_ y tid t out
+            if !r.2 then (s, "unknown") else
+            let o := match out with
+              | .abort => "done aborted 200"
+              | .status c => s!"done {c}"
+            ({ s with lb := some r.1 }, o)
+        | _, _ => (s, "bad-op")
+      | _, _ => (s, "bad-op")
+  | _ => (s, "bad-op")
+
 def step (s : DState) (line : String) : DState × String :=
   match words line with
   | "rl" :: rest => rlStep s rest
+  | "cb" :: rest => cbStep s rest
+  | "lb" :: rest => lbStep s rest
   | _ => (s, "bad-op")
 
 partial def loop (h : IO.FS.Stream) (out : IO.FS.Stream) (s : DState) : IO Unit := do
   let line ← h.getLine
   if line.isEmpty then return ()
-  let l := (line.dropRightWhile (fun c => c == '\n' || c == '\r'))
+  let l := (line.dropEndWhile (fun c => c == '\n' || c == '\r')).toString
   if l.startsWith "#" || l.isEmpty then
     loop h out s
   else
